@@ -23,7 +23,7 @@ import (
 )
 
 func init() {
-	fw.Register(&fw.Prop{ID: "C10", Run: run, Sharded: true, QuickSecs: 80, ThoroughSecs: 1500})
+	fw.Register(&fw.Prop{ID: "C10", Run: run, Sharded: true, QuickSecs: 170, ThoroughSecs: 1500})
 }
 
 // fault kinds the scripted server can commit instead of a correct reply.
@@ -598,6 +598,11 @@ func run(ctx *fw.Ctx, rep *fw.Report) {
 		}
 	}
 	rep.Info["scenarios_total"] = len(scs)
+	// the small parts first, so that they cannot fall victim to the tier budget
+	runFinalizers(ctx, rep)
+	if ctx.Shard == 0 {
+		runAllocator(ctx, rep)
+	}
 	budget := 45 * time.Second
 	if !ctx.Quick() {
 		budget = 4 * time.Minute
@@ -625,8 +630,4 @@ func run(ctx *fw.Ctx, rep *fw.Report) {
 		fw.RunScenario(ctx, rep, sc, fw.SchedOpts{Budget: budget, ForcePB: -1, SkipDPOR: true, Wide: wide, Fallback: bounds, Deviations: dev})
 	}
 	rep.Info["preemption_bound_goal"] = map[bool]int{true: 1, false: 2}[ctx.Quick()]
-	runFinalizers(ctx, rep)
-	if ctx.Shard == 0 {
-		runAllocator(ctx, rep)
-	}
 }
